@@ -304,6 +304,59 @@ fn run_kind(kind: &str, cap: usize, call: &Call) -> Option<String> {
     }
 }
 
+/// an inner `std::io::Write` that takes a chunk completely or not at all (`Ok(0)` for one that does not fit: room stays)
+struct AllOrNothing { buf: Vec<u8>, cap: usize }
+impl std::io::Write for AllOrNothing {
+    fn write(&mut self, b: &[u8]) -> std::io::Result<usize> {
+        if b.len() > self.cap - self.buf.len() { return Ok(0) }
+        self.buf.extend_from_slice(b);
+        Ok(b.len())
+    }
+    fn flush(&mut self) -> std::io::Result<()> { Ok(()) }
+}
+
+/// `sinkio <variant> <cap> <chunk-hex>…`: raw `write_all` calls on ONE `Writer` whose inner `std::io::Write` has room again after a
+/// failed call.  `aon`: the inner writer is all-or-nothing.  `rewind`: `Writer<std::io::Cursor<&mut [u8]>>`, rewound through
+/// `get_mut().set_position(0)` after every failed call.  `encaon`: like `aon`, the chunks are `u64` values encoded through one Encoder.
+/// Output: `seq:<ok|err>,… buf=<hex of what the inner writer holds>`
+pub fn run_sinkio(w: &[&str]) -> String {
+    if w.len() < 2 { return "bad-op".into() }
+    let cap = match w[1].parse::<usize>() { Ok(c) if c <= 4096 => c, _ => return "bad-op".into() };
+    let mut rs: Vec<&str> = Vec::new();
+    let buf: Vec<u8>;
+    match w[0] {
+        "aon" => {
+            let mut wr = Writer::new(AllOrNothing { buf: Vec::new(), cap });
+            for c in &w[2..] {
+                let Some(b) = unhex(c) else { return "bad-op".into() };
+                rs.push(if wr.write_all(&b).is_ok() { "ok" } else { "err" });
+            }
+            buf = wr.into_inner().buf;
+        }
+        "encaon" => {
+            let mut e = Encoder::new(Writer::new(AllOrNothing { buf: Vec::new(), cap }));
+            for c in &w[2..] {
+                let Ok(v) = c.parse::<u64>() else { return "bad-op".into() };
+                rs.push(match e.u64(v) { Ok(_) => "ok", Err(x) => if x.is_write() { "err" } else { "other" } });
+            }
+            buf = e.into_writer().into_inner().buf;
+        }
+        "rewind" => {
+            let mut m = vec![FILL; cap];
+            {
+                let mut wr = Writer::new(std::io::Cursor::new(&mut m[..]));
+                for c in &w[2..] {
+                    let Some(b) = unhex(c) else { return "bad-op".into() };
+                    if wr.write_all(&b).is_ok() { rs.push("ok") } else { rs.push("err"); wr.get_mut().set_position(0) }
+                }
+            }
+            buf = m;
+        }
+        _ => return "bad-op".into()
+    }
+    format!("seq:{} buf={}", if rs.is_empty() { "-".into() } else { rs.join(",") }, hex(&buf))
+}
+
 /// `encseq <kind> <cap> <call>…`: the calls on ONE encoder over a bounded sink of `cap` bytes (filled with ee),
 /// carrying on after a failed call (the same op exists in harness/cfg for the six configurations).
 /// kinds: `slice`, `cslice`, `cbox`, `carr` (`Cursor<[u8; 12]>`, cap must be 12).
